@@ -80,16 +80,20 @@ Section Handshake.
 End Handshake.
 
 (* ---- concrete instance run by the correspondence check: certificate kinds of the harness ---- *)
-Inductive cert_kind := CValid | CWrongName | CUnknownCA | CExpired | CSelfSigned.
+Inductive cert_kind := CValid | CWrongName | CUnknownCA | CExpired | CSelfSigned | CSysRoot | CSysRootWrongName.
 
-(* the harness' CA is the "configured CA"; it is never among the system roots *)
+(* the harness' CA is the "configured CA"; it is never among the system roots.  The system roots of the process are
+   under the harness' control as well (SSL_CERT_FILE / SSL_CERT_DIR): exactly one "system" CA, which issues the
+   CSysRoot* kinds and is never the configured CA.  The two pools are DISJOINT: a configured ca REPLACES the system
+   roots (ConfiguredCA is not "system roots + ca"). *)
 Definition ck_chains (p : ca_pool) (k : cert_kind) : bool :=
   match p, k with
   | ConfiguredCA, (CValid | CWrongName | CExpired) => true
+  | SystemRoots, (CSysRoot | CSysRootWrongName) => true
   | _, _ => false
   end.
 Definition ck_name (k : cert_kind) (_ : list N) : bool :=
-  match k with CWrongName => false | _ => true end.
+  match k with CWrongName | CSysRootWrongName => false | _ => true end.
 Definition ck_time (k : cert_kind) : bool :=
   match k with CExpired => false | _ => true end.
 
@@ -104,3 +108,11 @@ Definition tls_listener_starts (o : tls_opts) : bool := is_ok (make_tls_config o
 Definition tls_upstream_starts (o : tls_opts) : bool := is_ok (make_tls_config o false).
 Definition tls_upstream_case_req (o : tls_opts) (peer : option cert_kind) (server_requires_cert : bool) : bool :=
   tls_upstream_case o peer && (negb server_requires_cert || o_cert_key o).
+
+(* ---- makeTlsConfig observed field by field (kind tlscfg): the pools are compared as SETS of certificates ---- *)
+Definition tls_config_view (o : tls_opts) (require_cert : bool)
+  : option (bool * ca_pool * bool * client_auth * option ca_pool) :=
+  match make_tls_config o require_cert with
+  | Ok c => Some (c_insecure c, c_roots c, c_has_cert c, c_client_auth c, c_client_cas c)
+  | _ => None
+  end.
